@@ -33,6 +33,8 @@ fn main() {
         "C21" => props::c21::run_c21(&mut ctx),
         "C22" => props::c21::run_c22(&mut ctx),
         "C23" => props::c23::run(&mut ctx),
+        "C24" => props::c24::run(&mut ctx),
+        "C30" => props::c30::run(&mut ctx),
         "C34" => props::c34::run(&mut ctx),
         other => {
             eprintln!("zb: unknown property {other}");
